@@ -24,6 +24,11 @@ func genC09(t *rapid.T) c09Case {
 	if rapid.IntRange(0, 2).Draw(t, "kind") == 0 {
 		f := genC05(t)
 		f.Reuse = true
+		if len(f.Events) > 2 && rapid.IntRange(0, 2).Draw(t, "incomplete") == 0 {
+			// the connection ends in the middle of a transfer: the parts already delivered must stay intact
+			f.Events = f.Events[:rapid.IntRange(2, len(f.Events)-1).Draw(t, "keep")]
+			f.Cuts, f.CutAt = "per_frame", nil
+		}
 		c.Frag = &f
 	} else {
 		p := genC04(t)
@@ -92,6 +97,7 @@ func checkC09(c c09Case, _ *kit.Collector) kit.Result {
 			}
 		}
 	}
+	pendingAtClose := len(fd.ex.Pending()) > 0
 	if c.Closed {
 		fd.ex.Clear()
 		clear(fd.buf)
@@ -103,6 +109,9 @@ func checkC09(c c09Case, _ *kit.Collector) kit.Result {
 		}
 	}
 	res.Labels = []string{kind}
+	if len(fd.ex.Pending()) > 0 || pendingAtClose {
+		res.Labels = append(res.Labels, "transfer_incomplete_at_close")
+	}
 	if c.Closed {
 		res.Labels = append(res.Labels, "cleanup")
 	}
